@@ -5,6 +5,7 @@ use crate::runner::{entry, Entry};
 pub mod c01;
 pub mod c02;
 pub mod c03;
+pub mod c04;
 pub mod c07;
 pub mod c08;
 pub mod c09;
@@ -39,6 +40,14 @@ pub fn registry() -> Vec<Entry> {
             200_000,
             "arbitrary well-formed programs in the stated domain (regions of labelled blocks with random branches/jumps/calls, cross-region jumps, shared tails, several labels per entry, multiple returns, exit ecalls inside functions, fall-through into functions, dead blocks; no indirect jump but ret) x 4-6 initial register/memory/environment vectors executed on the reference machine. Checked: successor/predecessor sets are exact inverses and stay inside the graph; every executed intra-procedural transfer (incl. call -> next instruction on return) is an edge; every edge is a fall-through, a jump to the written label or the merge of an extra return; exit ecalls have no successors; no executed line is reported unreachable. Programs with several returns are analysed 3 times (hash orders). Non-trivial = has a backward branch or a call and executed >= 5 distinct lines.",
             &["reference machine", "programs the analyzer rejects with a CFG error are skipped and counted (C16 covers them)"],
+        ),
+        entry::<c04::C04>(
+            "C04",
+            1600,
+            4000,
+            200_000,
+            "programs generated conforming-by-construction (main + 0-5 functions of arity 0-3 with or without result, leaf and non-leaf, any subset of saved registers, shuffled frame layouts with padding and spill slots, one- or two-step frame allocation, nested if/else and counted loops, calls in loops, recursion, early returns with a full second epilogue, ecalls with and without results, data loads/stores, mv/addi into a7) and confirmed by a dynamic convention monitor on 3 executions, rendered with every surface freedom; RVParser-level lint of the staged pipeline must return no diagnostic of any kind. Non-trivial = >= 2 functions, a frame with a saved register, a loop or branch, and a call inside a loop / recursion / >= 2 calls.",
+            &["'conforming' is the statement's own list, enforced by construction and by the dynamic monitor (trusted base), never by what the analyzer accepts", "nop is not generated (it is an arithmetic write to the zero register)", "programs the monitor rejects are generator bugs: discarded and counted"],
         ),
         entry::<c07::C07>(
             "C07",
